@@ -66,7 +66,7 @@ def _script(rng, alphabet, pfail):
 def generate(rng, tier):
     big = tier == 'thorough'
     out = []
-    n_seq = 12000 if big else 1500
+    n_seq = 40000 if big else 1500
     for _ in range(n_seq):
         layer = rng.choice(LAYERS)
         n = rng.choice([0, 1, 1, 2, 2, 3, 3, 4])
@@ -94,7 +94,7 @@ def generate(rng, tier):
                 ops.append(rng.choice(['fm', 'sm', 'e']))
         out.append(_case(f'fan {layer} {",".join(kids) or "-"} ; ' + ' ; '.join(ops), 'sequential', layer))
     # the deadline arithmetic: short timeout, slow children (each slow call sleeps 25 ms)
-    for _ in range(120 if big else 12):
+    for _ in range(240 if big else 12):
         layer = rng.choice(['ml', 'lp', 'mp', 'ms'])
         n = rng.randrange(2, 5)
         kids = []
@@ -104,7 +104,7 @@ def generate(rng, tier):
         ops = [rng.choice(['fk', 'fk', 'sk', 'fl', 'fz']) for _x in range(2)]
         out.append(_case(f'fan {layer} {",".join(kids)} ; ' + ' ; '.join(ops), 'deadline', layer))
     # real batch processors (worker threads) behind the providers
-    for _ in range(1500 if big else 150):
+    for _ in range(4000 if big else 150):
         layer = rng.choice(['ms', 'tp', 'ml', 'lp'])
         n = rng.randrange(1, 4)
         kids = []
@@ -138,9 +138,16 @@ class Parsed:
         self.kinds = [] if head[2] == '-' else [k.split(':')[0] for k in head[2].split(',')]
         self.ops = toks[1:]
         self.segs = []
+        self.sums = None
         for s in out.split(' ; '):
             t = s.split()
-            self.segs.append((t[0], t[1:]))
+            if t[0] == 'sum':
+                self.sums = {}
+                for x in t[1:]:
+                    m = re.fullmatch(r'c(\d+):F(\d+):S(\d+):X(\d+)', x)
+                    self.sums[int(m.group(1))] = (int(m.group(2)), int(m.group(3)), int(m.group(4)))
+            else:
+                self.segs.append((t[0], t[1:]))
 
 
 _EV = re.compile(r'([cx])(\d+):(.*)')
@@ -250,8 +257,16 @@ def oracle(case, out):
         for w, i, b in E:
             if w == 'c' and b.startswith('S:') and p.layer == 'mp':
                 rshut[i] += 1
+    # the children's own counters (kept apart from the event log by the harness) say the same
+    if p.sums is None or sorted(p.sums) != list(range(n)):
+        return ('per-child-counters-reported', out[-120:])
+    for i in range(n):
+        if p.kinds[i] in 'sb' and p.sums[i][2] != xshut[i]:
+            return ('exporter-shut-down-exactly-once', f'child {i}: counter says {p.sums[i][2]} exporter Shutdown calls, log {xshut[i]}')
     if destroyed:
         for i in range(n):
+            if p.kinds[i] in 'sb' and p.sums[i][2] != 1:
+                return ('exporter-shut-down-exactly-once', f'child {i}: {p.sums[i][2]} exporter Shutdown calls over the whole life')
             if p.kinds[i] in 'sb' and xshut[i] != 1:
                 return ('exporter-shut-down-exactly-once', f'child {i}: {xshut[i]} exporter Shutdown calls over the whole life')
             if p.layer == 'mp' and not direct_reader_shutdown and rshut[i] != 1:
